@@ -7,7 +7,6 @@ import (
 	"fmt"
 	"math/rand"
 	"os"
-	"os/exec"
 	"sort"
 	"strings"
 	"sync"
@@ -77,9 +76,10 @@ const lateWait = 2 * time.Second
 // output mode and ends with a sentinel ECHO, so runs are independent), for HTTP
 // every run is a connection.
 type runner struct {
-	addr string
-	c    *wire.Conn
-	late int64
+	addr    string
+	c       *wire.Conn
+	late    int64
+	tainted bool // a run was abandoned while the server may still be executing it
 }
 
 func (r *runner) drop() {
@@ -104,6 +104,7 @@ func (r *runner) finish(p wire.Proto, canon []string) ([]string, []byte, error) 
 		canon = append(canon, "!malformed:"+ferr.Error())
 	}
 	if to {
+		r.tainted = true
 		return canon, rest, errPrefixTimeout
 	}
 	if rerr != nil && len(canon) == 0 {
@@ -121,7 +122,9 @@ func (r *runner) closeClean(p wire.Proto) []byte {
 	c := r.c
 	defer r.drop()
 	c.CloseWrite()
-	c.ReadToEOF(ioTimeout)
+	if to, _ := c.ReadToEOF(ioTimeout); to {
+		r.tainted = true
+	}
 	return append([]byte(nil), c.Buf...)
 }
 
@@ -244,7 +247,7 @@ type segJob struct {
 
 // Run is the C16 check.
 func Run(ctx *core.Ctx) {
-	ctx.Rule = "part A: homogeneous command streams per transport (RESP, telnet, native: mixed 5-60 commands with quoting/JSON/mode switches, a value > 64 KiB, a command boundary exactly at 0xFFFF, a pipeline of 1000/3000 commands; HTTP: single GET/POST requests incl. a > 64 KiB body); each stream starts with FLUSHDB so its reply stream is a function of its bytes; baseline = one write; compared: EVERY 2-way cut position, random k-way cuts, byte-at-a-time, each segment followed by a wait for the replies it completes, then half-close and read to EOF; canonical reply sequences (timing masked) must be equal and as long as the command list. non-trivial = a cut strictly inside a command, distinct key = (stream, cut positions). " +
+	ctx.Rule = "part A: homogeneous command streams per transport (RESP, telnet, native: mixed 5-60 commands with quoting/JSON/mode switches, a value > 64 KiB, a command boundary exactly at 0xFFFF, a pipeline of 300-500 (quick) or 1000-3000 (thorough) cheap commands; HTTP: single GET/POST requests incl. a > 64 KiB body); each stream starts with FLUSHDB so its reply stream is a function of its bytes; baseline = one write; compared: EVERY 2-way cut position, random k-way cuts, byte-at-a-time, each segment followed by a wait for the replies it completes, then half-close and read to EOF; canonical reply sequences (timing masked) must be equal and as long as the command list; a mismatch is reported only if it shows again on a fresh server and connection. non-trivial = a cut strictly inside a command, distinct key = (stream, cut positions). " +
 		"part B: fuzz inputs from three generators (PRNG bytes / bit-flips of valid streams; grammar mutation of one valid template per command form; the systematic argument-shape sweep shared with C17) plus protocol-header shapes, each logged before it is sent on its own connection to a child server (one per batch) holding a small dataset with hooks; after every input a bystander connection runs one kmodel-checked read or write on a key the generators cannot name; non-trivial = input that produced >= 1 reply, distinct key = (generator, template, mutation ops, transport, reply class)"
 	ctx.Assumptions = []string{
 		"HTTP: the server closes the connection after one request, so an HTTP stream is one request",
@@ -274,24 +277,26 @@ func Run(ctx *core.Ctx) {
 }
 
 func (ck *checker) startServer() *srv.Server {
-	s, err := srv.Start(srv.Opts{Bin: ck.bin})
-	if err != nil {
-		ck.ctx.Fatal("start server: %v", err)
+	var err error
+	for attempt := 0; attempt < 4; attempt++ {
+		var s *srv.Server
+		s, err = srv.Start(srv.Opts{Bin: ck.bin})
+		if err == nil {
+			return s
+		}
+		time.Sleep(2 * time.Second)
 	}
-	return s
+	ck.ctx.Fatal("start server: %v", err)
+	return nil
 }
 
-// startCapped starts a server whose address space is limited (prlimit), so that a
+// startCapped starts a server whose address space is limited (prlimit64), so that a
 // request that allocates without bound ends as an out-of-memory crash of the
 // child instead of exhausting the machine.
 func (ck *checker) startCapped() *srv.Server {
-	o := srv.Opts{Bin: ck.bin}
-	if _, err := exec.LookPath("prlimit"); err == nil {
-		o.Wrapper = []string{"prlimit", "--as=6442450944"}
-	}
-	s, err := srv.Start(o)
-	if err != nil {
-		ck.ctx.Fatal("start server: %v", err)
+	s := ck.startServer()
+	if err := wire.LimitAddressSpace(s.Pid(), 6<<30); err != nil {
+		ck.ctx.Count("address_space_limit_failed", 1)
 	}
 	return s
 }
@@ -481,6 +486,15 @@ func clipAll(a []string) []string {
 func (ck *checker) compareOne(sp **srv.Server, r *runner, st *stream, mode string, cuts []int) bool {
 	ctx := ck.ctx
 	for attempt := 0; ; attempt++ {
+		if r.tainted {
+			// an abandoned run may still be executing on this server: never reuse it
+			r.drop()
+			(*sp).Kill9()
+			*sp = ck.startServer()
+			r.addr = (*sp).Addr()
+			r.tainted = false
+			ctx.Count("servers_replaced_after_abandoned_run", 1)
+		}
 		s := *sp
 		got, rest, err := r.run(st, cuts)
 		descr := func() string {
@@ -563,6 +577,23 @@ func (ck *checker) compareOne(sp **srv.Server, r *runner, st *stream, mode strin
 			return true
 		}
 		r.drop() // do not let a broken run leak into the next one
+		// confirm on a fresh server and connection: a reader defect depends on the bytes
+		// and the segmentation only; a mismatch that never shows again is interference
+		// (an overloaded machine), not a refutation
+		confirmed := false
+		for i := 0; i < 2 && !confirmed; i++ {
+			fresh := ck.startServer()
+			got2, rest2, err2 := runSegmented(fresh.Addr(), st, cuts)
+			fresh.Kill9()
+			if err2 == nil && (firstDiff(st.Base, got2) >= 0 || len(rest2) > 0) {
+				confirmed = true
+			}
+		}
+		if !confirmed {
+			ctx.Count("mismatch_not_reproduced", 1)
+			r.tainted = true
+			return true
+		}
 		exp, g := "<none>", "<none>"
 		if d >= 0 && d < len(st.Base) {
 			exp = st.Base[d]
